@@ -165,7 +165,10 @@ class Check:
         self.extra = {}
 
     def run(self, instances):
-        s = run_instances(instances)
+        only = os.environ.get('VERIF_ONLY')
+        if only:
+            instances = [i for i in instances if only in i.name]
+        s = run_instances(instances, procs=int(os.environ.get('VERIF_PROCS', '16')))
         self.summaries.extend(s)
         self.instances = getattr(self, 'instances', []) + list(instances)
         return s
@@ -230,10 +233,11 @@ class Check:
                 if k.startswith('cut:'):
                     cuts[k] = cuts.get(k, 0) + n
         replay_paths = []
-        os.makedirs(os.path.join(VERIF, 'replays'), exist_ok=True)
+        out_root = VERIF if not os.environ.get('VERIF_NOEVIDENCE') else '/var/tmp/verif-scratch'
+        os.makedirs(os.path.join(out_root, 'replays'), exist_ok=True)
         for v in new:
             h = hashlib.sha256(json.dumps(v, sort_keys=True, default=str).encode()).hexdigest()[:12]
-            p = os.path.join(VERIF, 'replays', f'{self.pid}-{h}.json')
+            p = os.path.join(out_root, 'replays', f'{self.pid}-{h}.json')
             json.dump({'property': self.pid, **v}, open(p, 'w'), indent=1, default=str)
             replay_paths.append(p)
         ev = {
@@ -270,8 +274,8 @@ class Check:
             'wall_s': round(time.time() - self.t0, 2),
             'violations': len(new),
         }
-        os.makedirs(os.path.join(VERIF, 'evidence'), exist_ok=True)
-        json.dump(ev, open(os.path.join(VERIF, 'evidence', f'{self.pid}.json'), 'w'), indent=1, default=str)
+        os.makedirs(os.path.join(out_root, 'evidence'), exist_ok=True)
+        json.dump(ev, open(os.path.join(out_root, 'evidence', f'{self.pid}.json'), 'w'), indent=1, default=str)
         for fid, v in sorted(known_hit.items()):
             print(f"KNOWN-FINDING: property={self.pid} {fid}: {known_ids[fid]['what']}")
         print(f"{self.pid} {self.tier}: instances={len(self.summaries)} paths={paths} queries={tot.get('queries', 0)} "
@@ -303,3 +307,45 @@ def native_replay_subprocess(pid, violation, timeout=60):
         return True     # a hang is a reproduction of a non-termination counterexample
     finally:
         os.unlink(path)
+
+
+# ----------------------------------------------------------------------------- concrete re-runs of a harness function
+def rerun_concrete(fn, inputs, args=()):
+    """run the harness function on concrete inputs (no proxies are created) -> (outcome class, failed labels)"""
+    from symx import core
+    eng = core.ReplayEngine(inputs)
+    out, failed = eng.run(lambda: fn(*args))
+    viol = None
+    if isinstance(out, dict):
+        viol = out.get('violation')
+        out = out.get('class')
+    return out, failed + ([viol] if viol else [])
+
+
+def native_of(fn):
+    """Instance.native for harnesses whose outcome class does not depend on uninterpreted-function values"""
+    def native(inputs, *args):
+        out, failed = rerun_concrete(fn, inputs, args)
+        if failed:
+            return ['concrete re-run failed', failed]
+        return out
+    return native
+
+
+def generic_replay_file(path, build_all, loader):
+    """native replay of a counterexample of a world harness: unshimmed modules, concrete inputs, same oracle.
+    exit status 1 = the violation reproduces, 0 = it does not."""
+    from symx import core
+    v = json.load(open(path))
+    loader()
+    for inst in build_all():
+        if inst.name == v['instance']:
+            try:
+                out, failed = rerun_concrete(inst.fn, v['inputs'], inst.args)
+            except core.AssumptionFailed as e:
+                print('replay: inputs violate an assumption of the harness:', e)
+                return 0
+            print('replay outcome:', out, 'failed:', failed)
+            return 1 if failed else 0
+    print('replay: unknown instance', v['instance'])
+    return 2
